@@ -71,7 +71,7 @@ fn sources(prop: &str) -> Vec<Source> {
         "C13" => vec![Source::Treasury],
         "C14" => vec![Source::Staking, Source::CfgFuzz],
         "C16" => vec![Source::Staking, Source::Staking, Source::Staking, Source::Treasury, Source::CfgFuzz, Source::Migr],
-        "C18" => vec![Source::Staking, Source::Migr],
+        "C18" => vec![Source::Staking, Source::Migr, Source::Migr, Source::Treasury],
         _ => vec![Source::Staking],
     }
 }
@@ -162,6 +162,7 @@ struct Totals {
 fn explore(prop: &str, seed: u64, runs: u64, workers: usize, known: &Known, keep_events: bool, per_run: Option<&Mutex<BTreeMap<u64, (u64, bool)>>>) -> (Totals, Option<Found>) {
     let totals = Mutex::new(Totals { evaluations: 0, hashes: BTreeSet::new(), nontrivial_hashes: BTreeSet::new(), faulted_runs: 0, stats: engine::RunStats::default(), samples: vec![] });
     let found: Mutex<Option<Found>> = Mutex::new(None);
+    let harness: Mutex<Option<String>> = Mutex::new(None);
     let chunk = 512u64;
     let mut start = 0u64;
     while start < runs {
@@ -176,6 +177,12 @@ fn explore(prop: &str, seed: u64, runs: u64, workers: usize, known: &Known, keep
                     }
                     let (case, ev) = gen_case(prop, seed, idx, known, keep_events);
                     let target = first_matching(&ev, prop, None);
+                    if let Some(hv) = first_matching(&ev, "HARNESS", None) {
+                        let mut hm = harness.lock().unwrap();
+                        if hm.is_none() {
+                            *hm = Some(format!("run {} step {} [{}] {}", idx, hv.step, hv.clause, hv.msg));
+                        }
+                    }
                     if let Some(pr) = per_run {
                         let h = if keep_events { events_hash(&ev) } else { ev.hash };
                         pr.lock().unwrap().insert(idx, (h, target.is_some()));
@@ -211,6 +218,10 @@ fn explore(prop: &str, seed: u64, runs: u64, workers: usize, known: &Known, keep
     }
     let mut t = totals.into_inner().unwrap();
     t.samples.sort_by_key(|s| s["run"].as_u64().unwrap_or(0));
+    if let Some(h) = harness.into_inner().unwrap() {
+        eprintln!("HARNESS ERROR: {}", h);
+        std::process::exit(2);
+    }
     (t, found.into_inner().unwrap())
 }
 
